@@ -250,7 +250,7 @@ func main() {
 	mc.Main("C20", func(cfg *mc.Config, emit func(mc.Scenario)) {
 		d := 4
 		if cfg.Thorough() {
-			d = 5
+			d = 6
 		}
 		for k := 1; k <= d; k++ {
 			emit(treeScenario(k))
